@@ -259,3 +259,12 @@ func decode(k Kind, b []byte, off int, depth int) (*Value, int, error) {
 	v.End = off
 	return v, off, nil
 }
+
+// DecodeCompare strictly decodes b as kind k and compares with want ("" = equal).
+func DecodeCompare(k Kind, b []byte, want *Value) string {
+	got, err := DecodeStrict(k, b)
+	if err != nil {
+		return "not well-formed: " + err.Error()
+	}
+	return Diff(got, want)
+}
